@@ -14,7 +14,7 @@
 
     [EarliestStartTimeObserver] is the REPAIRED one (fix-C11-earliest-start). *)
 From JSL Require Import Base Instance Dstate Filters World Observers Feasible Derived DispatchFun Inv Run Replay
-     FeatureObservers FeatureSpec FeatureBase FeatureSimple FeatureProofs FeatureEst FeatureComposite FeatureMachines.
+     FeatureObservers FeatureSpec FeatureBase FeatureSimple FeatureProofs FeatureEst FeatureComposite FeatureMachines FeatureCompletedOps.
 
 (** ** IsReady: readiness w.r.t. the installed filter (every entity, every filter, zero durations included) *)
 Theorem C11_is_ready :
@@ -115,6 +115,18 @@ Theorem C11_is_completed_partial :
         cell (fo_jobs (feat w i)) j = Some (sp_allsched_job I (rows w) j).
 Proof. exact completed_jobs_after. Qed.
 Print Assumptions C11_is_completed_partial.
+
+(** Operation level: the flags are sticky, so the claim rests on the clock
+    being monotone (C06): no filter, or any filters on positive durations. Every
+    operation that still has work left shows 0. *)
+Theorem C11_is_completed_operations :
+  forall (I : instance) (fs : list fname), valid I -> has_machines I -> (fs = [] \/ positive I) ->
+    forall m rs s0 i, placed s0 i (fresh_comp I m) ->
+    let w := after_run I fs s0 rs in
+    t_ops m = true -> forall j p op, get_op I j p = Some op -> op_work_left I fs (rows w) (j, p) = true ->
+        cell (fo_ops (feat w i)) (op_id I j p) = Some (sp_completed_op I fs (rows w) (j, p)).
+Proof. exact completed_ops_after. Qed.
+Print Assumptions C11_is_completed_operations.
 
 (** Job 0 = one operation of 5 on machine 0, job 1 = one operation of 2 on
     machine 1. After dispatching (0,0) the current time is 0, the operation
